@@ -235,6 +235,39 @@ theorem accepts_sound (E t : Nat) : ∀ fuel r target, accepts E t fuel r target
       subst this
       exact ⟨[], r, Run.done r (by omega), rfl⟩
 
+/-! ### The builder path emits exactly the steps -/
+
+/-- the rotation instructions the builder emits carry exactly the steps, in order (one instruction per
+step, nothing dropped, nothing added) -/
+theorem emitted_operands (axis vq : Nat) (steps : List (Nat × Nat)) :
+    rotOperands axis (emitRot axis vq steps) = steps := by
+  induction steps with
+  | nil => rfl
+  | cons p l ih =>
+    have : emitRot axis vq (p :: l) = [Cmd.setQ 0 vq, Cmd.rot axis 0 p.1 p.2] ++ emitRot axis vq l := by
+      simp [emitRot]
+    rw [this]
+    unfold rotOperands at ih ⊢
+    rw [List.filterMap_append, ih]
+    simp
+
+/-- `emitted_within`: the (n, d) operands of the rotation instructions EMITTED by
+`q.rot_X/Y/Z(angle=…)` under-approximate `rest` by at most `tol_pi` and fit the 8-bit fields. -/
+theorem emitted_within (axis vq E t r : Nat) (cmds : List Cmd) (hs : emitSpec axis vq E t r = some cmds)
+    (ht : 2 ^ E ≤ t * 2 ^ 247) :
+    (0 : K) ≤ val E r - sumVal (rotOperands axis cmds) ∧
+    (val E r : K) - sumVal (rotOperands axis cmds) ≤ val E t ∧
+    ∀ p ∈ rotOperands axis cmds, 1 ≤ p.1 ∧ p.1 ≤ 255 ∧ p.2 ≤ 255 := by
+  unfold emitSpec at hs
+  cases hx : spec E t r with
+  | none => rw [hx] at hs; cases hs
+  | some l =>
+    rw [hx] at hs
+    injection hs with hs
+    subst hs
+    rw [emitted_operands]
+    exact spec_within E t r l hx ht
+
 /-! ### Consecutive rotations about one axis compose to one rotation by the sum
 
 A rotation about axis `a` by θ is `cos(θ/2)·1 − sin(θ/2)·J` with `J = i·σ_a`, `J² = −1`; everything
